@@ -253,6 +253,20 @@ theorem collect_error_iff {α β} (f : α → Except Err β) (ignore : Bool) (as
         · rw [hb]; dsimp only; rw [hrest]
         · rw [hb]; dsimp only; rw [if_pos ⟨rfl, hi⟩, hrest]
 
+/-- converting every element and collecting the conversions back: when each element survives both
+    steps nothing is lost and the order is kept, whatever the error policy -/
+theorem mapM_collect_roundtrip {α β γ} (f : α → Except Err β) (g : β → Except Err γ) (c : α → γ)
+    (ignore : Bool) (l : List α) (h : ∀ a ∈ l, ∃ b, f a = .ok b ∧ g b = .ok (c a)) :
+    ∃ bs, l.mapM f = .ok bs ∧ collect g ignore bs = .ok (l.map c) := by
+  induction l with
+  | nil => exact ⟨[], by simp [pure, Except.pure], by simp [collect]⟩
+  | cons a l ih =>
+    obtain ⟨b, hb, hg⟩ := h a (by simp)
+    obtain ⟨bs, hbs, hc⟩ := ih (fun x hx => h x (by simp [hx]))
+    refine ⟨b :: bs, ?_, ?_⟩
+    · rw [List.mapM_cons, hb, hbs]; rfl
+    · unfold collect; rw [hg, hc]; rfl
+
 /-! ### numbers -/
 
 theorem pyInt_of_nonneg (q : Rat) (h : 0 ≤ q) : pyInt q = q.floor := by
